@@ -7,7 +7,10 @@ def expected(case, mout):
 def nontrivial(case, mout):
     return bool(case.get("op")) or case.get("pred") is True
 
-RULE = ("1: util::fill_buffer against the model for every composition of inputs of 0..6 octets x requested sizes x no fault / a fault at every call. 2: MessageBuilder for 12 (thorough 24) "
+RULE = ("1: util::fill_buffer against the model for every composition of inputs of 0..6 octets x requested sizes x no fault / a fault at every call. 1b: armor::read_from_buf (hook "
+        "armor_read_from_buf_line) against the model's loop (Io/Reassemble.v): a one-line parser deciding 0 / 1 / 2 octets late over every cutting of 14 short streams, with and without the "
+        "size limit in reach; for the parsers that meet the contract every cutting must give what one piece gives; the contract of theorem C09_reassembly_is_whole_parse is checked on the real "
+        "armor::header_parser over every prefix of 420 (quick: 140) armor / cleartext openings. 2: MessageBuilder for 12 (thorough 24) "
         "configurations (no encryption / SEIPD v1 / SEIPD v2) x (compression) x (signature, text mode) x (armor) and payload sizes on the partial-chunk, AEAD-chunk and buffer edges: source "
         "schedules (1 octet at a time, straddling, random, every composition for tiny inputs) x sink schedules give identical octets; the reader under source schedules x {read_to_end, read with "
         "request sizes, BufRead} gives the identical payload and signature verdict; a fault injected at every call of the builder's source, the builder's sink and the reader's source is "
@@ -17,6 +20,7 @@ TRUSTED = [
     "model file: coq/theories/Io/Fill.v (fill loop, consumer, block pump); theorems coq/theories/Props/C09.v; the chunking theorems of the concrete stateful transformers are C14 (normalising hasher / reader for every chunking and window size), C10 (armor reader) and C03 (streaming decryptor refines one-shot)",
     "state-machine models with request-/chunking-independence theorems: Armor/LineWriter.v, Armor/B64Reader.v, Sym/Seipd1Machine.v, Aead/Seipd2Machine.v, Frame/BodyReader.v (readers), Io/Emitter.v with "
     "Sym/Seipd1EncMachine.v, Aead/Seipd2EncMachine.v, Frame/PartialWriter.v (staged producers); their octet-for-octet comparison with the library runs under C03, C12, C17 and here (LineWriter)",
+    "Io/Reassemble.v (armor::read_from_buf) is compared octet for octet through the hook; that armor::header_parser meets the theorem's contract is checked on prefixes, not proved (nom parser, not modelled); footer_parser is private and only exercised through Dearmor under schedules (C10)",
     "for the remaining composed readers and writers (compression, signature hashing readers, builder generators other than the literal one) schedule independence and fault surfacing are checked by enumeration / adversarial schedules, not proved",
 ]
 ASSUMPTIONS = ["one fault per run (single fault points)"]
